@@ -980,6 +980,8 @@ class CoseContext(AbstractContext):
                     # detach payload
                     msg_dec = cbor2.loads(msg_enc)
                     tgt_blk.setfieldval('btsd', msg_dec[2])
+                    # the decoded content no longer represents the block data
+                    tgt_blk.remove_payload()
                     msg_dec[2] = None
 
                 elif keyops.WrapOp in sop.priv_key.key_ops:
@@ -1014,6 +1016,8 @@ class CoseContext(AbstractContext):
                     # detach payload
                     msg_dec = cbor2.loads(msg_enc)
                     tgt_blk.setfieldval('btsd', msg_dec[2])
+                    # the decoded content no longer represents the block data
+                    tgt_blk.remove_payload()
                     msg_dec[2] = None
 
                 else:
